@@ -58,6 +58,9 @@ func NewUintListDecoder(reuseRecords bool) *UintListDecoder {
 }
 
 func (d *UintListDecoder) makeUintSlice(n uint32) []uint32 {
+	if n > maxPrealloc {
+		n = maxPrealloc
+	}
 	if d.sl == nil {
 		return make([]uint32, 0, n)
 	}
